@@ -140,6 +140,10 @@ type rOperand struct {
 	args []rOperand
 }
 
+// isCondFn: the operand is a call of a function that yields a condition (every function but size);
+// such a call is a condition of its own, never an operand of a comparator, BETWEEN, IN or a function
+func (o rOperand) isCondFn() bool { _, is := boolFns[o.fn]; return is }
+
 func (r *recog) operand() (rOperand, bool) {
 	if r.isSym("(") {
 		r.next()
@@ -162,8 +166,8 @@ func (r *recog) operand() (rOperand, bool) {
 		if !r.isSym(")") {
 			for {
 				a, ok := r.operand()
-				if !ok {
-					return rOperand{}, false
+				if !ok || a.isCondFn() {
+					return rOperand{}, false // a function that yields a condition is no operand
 				}
 				args = append(args, a)
 				if r.isSym(",") {
@@ -320,11 +324,14 @@ func (r *recog) primary() (*Cond, bool) {
 	if !ok {
 		return nil, false
 	}
+	if l.isCondFn() && ((r.peek().kind == "sym" && cmpSyms[r.peek().text]) || r.isKw("BETWEEN") || r.isKw("IN")) {
+		return nil, false
+	}
 	switch {
 	case r.peek().kind == "sym" && cmpSyms[r.peek().text]:
 		op := r.next().text
 		rt, ok := r.operand()
-		if !ok {
+		if !ok || rt.isCondFn() {
 			return nil, false
 		}
 		if !l.ok || !rt.ok {
@@ -333,11 +340,11 @@ func (r *recog) primary() (*Cond, bool) {
 		return &Cond{Op: "cmp", Cmp: op, Args: []Operand{l.op, rt.op}}, true
 	case r.kw("BETWEEN"):
 		lo, ok := r.operand()
-		if !ok || !r.kw("AND") {
+		if !ok || lo.isCondFn() || !r.kw("AND") {
 			return nil, false
 		}
 		hi, ok := r.operand()
-		if !ok {
+		if !ok || hi.isCondFn() {
 			return nil, false
 		}
 		if !l.ok || !lo.ok || !hi.ok {
@@ -355,7 +362,7 @@ func (r *recog) primary() (*Cond, bool) {
 		}
 		for {
 			a, ok := r.operand()
-			if !ok {
+			if !ok || a.isCondFn() {
 				return nil, false
 			}
 			if !a.ok {
